@@ -5,6 +5,7 @@ import math
 from ..astutil import dotted, effective, expand_expression_methods, method_call
 from ..cfg import cfg_of, fact_key, norm, walk_own
 from ..consteval import Scope, fold, fold_in
+from ..flow import one_shot_rules
 from ..mutate import B, M
 from ..symexpr import canon
 
@@ -259,6 +260,12 @@ def check(ctx):
     ctx.inst('R6', md, 'diagonal-sensor-pairs', sorted(dg) == sorted(['cls.calc_intersection_distance(vectors[0], vectors[3], bs_poses[bs_id], cf_pose)', 'cls.calc_intersection_distance(vectors[1], vectors[2], bs_poses[bs_id], cf_pose)']),
              'the two deck diagonals are sensors 0-3 and 1-2, measured with the matching base station and Crazyflie pose; found %s' % dg)
 
+    # the mean runs over all matched samples: one-shot iterators (zip / map) in the solver code are consumed exactly once
+    one_shot_rules(ctx, 'R6', [SC, AL])
+    lpm = [l_ for l_ in walk_own(md.node) if isinstance(l_, ast.For) and any(method_call(c_, 'append') and norm(c_.func.value) == 'diagonals' for c_ in ast.walk(l_))]
+    gmd = cfg_of(md)
+    itx = norm(gmd.resolve_local(gmd.node_of(lpm[0].iter), lpm[0].iter)) if lpm and gmd.node_of(lpm[0].iter) is not None else None
+    ctx.inst('R6', md, 'mean-over-all-samples', len(lpm) >= 1 and itx == 'zip(%s, %s)' % (md.params[2], md.params[3]), 'every (pose, sample) pair contributes its two diagonals; the loop runs over %s' % itx)
     for f in (fp, sd):
         rets = [s.value for s in walk_own(f.node) if isinstance(s, ast.Return)]
         ok = len(rets) == 1 and isinstance(rets[0], ast.Call) and norm(rets[0].func) == 'cls._scale_system' and [norm(a) for a in rets[0].args[:2]] == [f.params[1], f.params[2]]
